@@ -132,21 +132,21 @@ func (c *manualCtx) Err() error {
 }
 
 type sim struct {
-	sc       *Scenario
-	mu       sync.Mutex
-	log      []string
-	activity atomic.Int64
-	parked   map[string]*parked
-	idx      map[string]int
-	errs     map[int]error
-	errID    map[error]int
-	nextCtxE int
-	returned bool
+	sc        *Scenario
+	mu        sync.Mutex
+	log       []string
+	activity  atomic.Int64
+	parked    map[string]*parked
+	idx       map[string]int
+	errs      map[int]error
+	errID     map[error]int
+	nextCtxE  int
+	returned  bool
 	cancelled bool
-	dup      bool
-	kept     []keptMsg
-	cancelFn context.CancelFunc
-	mctx     *manualCtx
+	dup       bool
+	kept      []keptMsg
+	cancelFn  context.CancelFunc
+	mctx      *manualCtx
 }
 
 type keptMsg struct {
@@ -311,10 +311,16 @@ func (f fakeStream) Recv(ctx context.Context, msg proto.Message) error {
 	}
 	return f.s.tokErr(tok)
 }
-func (f fakeStream) Header() metadata.MD  { f.s.call("oh", "ohd", "", true, nil, false, nil); return nil }
-func (f fakeStream) Trailer() metadata.MD { f.s.call("ot", "otr", "", true, nil, false, nil); return nil }
-func (f fakeStream) CloseSend()           { f.s.call("oc", "ocs", "", true, nil, false, nil) }
-func (f fakeStream) Close()               { f.s.call("ol", "ocl", "", true, nil, false, nil) }
+func (f fakeStream) Header() metadata.MD {
+	f.s.call("oh", "ohd", "", true, nil, false, nil)
+	return nil
+}
+func (f fakeStream) Trailer() metadata.MD {
+	f.s.call("ot", "otr", "", true, nil, false, nil)
+	return nil
+}
+func (f fakeStream) CloseSend() { f.s.call("oc", "ocs", "", true, nil, false, nil) }
+func (f fakeStream) Close()     { f.s.call("ol", "ocl", "", true, nil, false, nil) }
 
 // settle waits until the goroutines of the call have stopped producing events.
 func (s *sim) settle() {
